@@ -4,6 +4,7 @@ import (
 	"encoding/binary"
 	"errors"
 	"fmt"
+	"math"
 	"os"
 	"os/exec"
 	"path/filepath"
@@ -91,12 +92,18 @@ func c18LimitFor(pkg string, setting int) int {
 	case 3:
 		return c18Defaults[pkg] + 1
 	}
+	if setting == 8 {
+		return math.MaxInt
+	}
+	if setting == 9 {
+		return math.MaxInt32
+	}
 	// settings 4..7: limits between the lengths of the package's own text forms (a limit that cuts between the plain
 	// and the URN form of an ID, between the basic and the extended date, inside typical numerals and versions)
 	return map[string][4]int{"date": {8, 9, 12, 40}, "roman": {7, 15, 64, 40}, "sem": {5, 11, 64, 40}, "size": {4, 24, 16, 40}, "uu": {36, 44, 37, 40}}[pkg][(setting-4)%4]
 }
 
-const c18Settings = 8
+const c18Settings = 10
 
 func c18ApplyLimit(setting int) func() {
 	a, b, cc, d, e := date.MaxInputLength, roman.MaxInputLength, sem.MaxInputLength, size.MaxInputLength, uu.MaxInputLength
@@ -821,13 +828,57 @@ func c18Child(c *rt.Ctx, dir string) {
 		if setting >= 4 {
 			nHostile /= 2
 		}
+		if setting >= 8 { // limits raised to the maximum: a short stream, allocation watched on the first call of every entry point
+			nHostile /= 8
+			tooMuch := false
+			c.Serial(fmt.Sprintf("limit-raised-to-the-maximum-%d", setting), func(w *rt.W) {
+				sample := []metrics.Sample{{Name: "/gc/heap/allocs:bytes"}}
+				for ei := range c18Entries {
+					e := &c18Entries[ei]
+					if !e.limited {
+						continue
+					}
+					in := c18Valid(w.Rng, e.pkg)
+					metrics.Read(sample)
+					before := sample[0].Value.Uint64()
+					c18Call(w, fl, ei, setting, in, in)
+					metrics.Read(sample)
+					if alloc := sample[0].Value.Uint64() - before; alloc > 1<<26 {
+						tooMuch = true
+						w.Fail("runaway-allocation:"+e.name, "call", rt.Args("entry", e.name, "limit_setting", setting, "limit", c18LimitFor(e.pkg, setting), "a", in, "b", in, "len_a", len(in), "len_b", len(in)), fmt.Sprintf("%d bytes allocated", alloc), "<= 64 MiB", "allocation driven by the configured limit rather than by the input")
+					}
+					w.ClassN("entry-point-under-maximum-limit", 1)
+				}
+			})
+			if tooMuch {
+				restore()
+				continue
+			}
+		}
 		c.Parallel(fmt.Sprintf("hostile-%d", setting), 0, func(w *rt.W) {
 			r := w.Rng
 			for _, pkg := range pkgs {
 				entries := byPkg[pkg]
 				limit := c18LimitFor(pkg, setting)
+				if pkg == "date" && w.Shard == 1 { // the days around the wall clock are inputs like any other
+					now := time.Now()
+					for _, t := range []time.Time{now.UTC(), now} {
+						for dd := -1; dd <= 1; dd++ {
+							x := t.AddDate(0, 0, dd)
+							for _, a := range []string{x.Format("2006-01-02"), x.Format("20060102")} {
+								for _, ei := range entries {
+									c18Call(w, fl, ei, setting, a, a)
+								}
+							}
+						}
+					}
+					w.ClassN("days-around-today", 1)
+				}
 				// limit contract: lengths around the limit, shaped and marked garbage
 				lens := []int{limit - 1, limit, limit + 1, 10 * limit, limit + 2, 2 * limit}
+				if limit > 1<<30 {
+					lens = []int{c18Defaults[pkg], 10 * c18Defaults[pkg], 1000 * c18Defaults[pkg]}
+				}
 				if limit == 0 {
 					d := c18Defaults[pkg]
 					lens = []int{d, d + 1, 10 * d, 100 * d, 1000 * d}
@@ -933,6 +984,8 @@ func c18Child(c *rt.Ctx, dir string) {
 	}()
 	c.Require("too-long-error-reread-after-limit-change", 1000)
 	c.Require("megabytes-with-the-limit-disabled", 15)
+	c.Require("entry-point-under-maximum-limit", 100)
+	c.Require("days-around-today", 8)
 	for _, pkg := range pkgs {
 		c.Require("over-limit:"+pkg, 100)
 		c.Require("exactly-at-limit:"+pkg, 10)
